@@ -22,6 +22,11 @@ add("C04", "model_checking", "run outcome and handler sequence: invariants of th
 add("C05", "model_checking", "no start after stop / signal reaches live processes / kill escalation / timeout: invariants and a liveness property of the model, monitors on real traces with obeying and ignoring scripted processes", SCHED_NOTE, SCHED_TECH, "sched", "5/C05")
 add("C15", "model_checking", "high-water mark of executing steps <= maxActiveRuns as model invariant plus liveness (run ends under every limit) and as monitor at every ExecBegin of real traces", SCHED_NOTE, SCHED_TECH, "sched", "5/C15")
 
+REC_NOTE = "trusted: TLC evaluating the declarative operator, the harness driver that calls the real functions and writes the records"
+add("C14", "model_checking", "Admission.tla models setup/findStep/Kahn's algorithm and TLC proves verdict = declarative Admissible for every graph on N steps (quick 3, thorough 4) incl. self loops and a dangling entry; "
+    "the real NewExecutionGraph is run on every edge set on 2-4 steps, loop-free 5-step sets (quick: 20000 sampled, thorough: all 2^20), random graphs up to 40 steps and the real agent.Run on samples, and TLC judges every record with the same operator",
+    REC_NOTE, "TLA+ model of the admission algorithm vs declarative definition (TLC) + exhaustive enumeration of graphs through the real code judged by TLC", "admit", "5/C14")
+
 ALL = ["C%02d" % i for i in range(1, 21)]
 for p in ALL:
     if p not in CHECKS:
@@ -44,6 +49,8 @@ def main():
             {"name": "sched", "path": "harness/rig/sched.go + spec/StepSched.tla + spec/SchedObserve.tla + spec/StepSchedTrace.tla",
              "serves_properties": ["C01", "C02", "C03", "C04", "C05", "C15"],
              "kind_free_text": "gate controller + scripted executor around the real scheduler.Schedule/Signal; TLC model checking, behaviour export, trace validation"},
+            {"name": "admit", "path": "harness/rig/admit.go + spec/Admission.tla + spec/AdmissionObserve.tla", "serves_properties": ["C14"],
+             "kind_free_text": "graph enumerator around scheduler.NewExecutionGraph / agent.Run; records judged by TLC"},
         ],
         "checks": [],
         "not_applicable": [{"property_id": p, "reason": NA[p]} for p in ALL if p in NA],
